@@ -689,15 +689,213 @@ theorem alloc_mem {bm : BindMap} {cs : List Inbound} {es : List Endpoint} {kv : 
             · exact Or.inl h
       · exact Or.inr ⟨p, by simp [hp], hpe⟩
 
+theorem isSome_set {β} (l : List (String × β)) (k k' : String) (v : β) (h : (Assoc.get l k').isSome = true) :
+    (Assoc.get (Assoc.set l k v) k').isSome = true := by
+  by_cases hk : k = k'
+  · subst hk; rw [get_set_self]; rfl
+  · rw [get_set_ne _ _ _ _ hk]; exact h
+
+/-- The loop never removes a key. -/
+theorem alloc_keeps (bm : BindMap) (cs : List Inbound) (es : List Endpoint) (k : String)
+    (h : (Assoc.get bm k).isSome = true) : (Assoc.get (allocLocal bm cs es) k).isSome = true := by
+  induction cs generalizing bm es with
+  | nil => simpa [allocLocal] using h
+  | cons c cs ih =>
+    cases es with
+    | nil => simpa [allocLocal] using h
+    | cons e es =>
+      rw [allocLocal_cons]
+      apply ih
+      unfold allocStep
+      split
+      · exact isSome_set _ _ _ _ h
+      · exact isSome_set _ _ _ _ (isSome_set _ _ _ _ h)
+
+/-- Every declared alias has an entry (of whichever channel named it last). -/
+theorem alloc_alias_present {bm : BindMap} {cs : List Inbound} {es : List Endpoint}
+    {c : Inbound} {e : Endpoint} (h : (c, e) ∈ cs.zip es) (hg : c.global.isEmpty = false) :
+    (Assoc.get (allocLocal bm cs es) (aliasKey c.global)).isSome = true := by
+  induction cs generalizing bm es with
+  | nil => simp at h
+  | cons c0 cs ih =>
+    cases es with
+    | nil => simp at h
+    | cons e0 es =>
+      rw [allocLocal_cons]
+      simp only [List.zip_cons_cons, List.mem_cons, Prod.mk.injEq] at h
+      rcases h with ⟨rfl, rfl⟩ | h
+      · apply alloc_keeps
+        unfold allocStep
+        simp [hg, get_set_self]
+      · exact ih h
+
 /-! ## plumbing for the property theorems -/
 
-theorem configure_ok {tasks : List Task} {res : List Props} (h : configure tasks = .ok res) :
+theorem wire_ok {tasks : List Task} {res : List Props} (h : wire tasks = .ok res) :
     ∃ bm, build [] (claims tasks) = .ok bm ∧ mapE (taskProps bm) tasks = .ok res := by
-  unfold configure at h
+  unfold wire at h
   split at h
   · cases h
   · rename_i bm hb
     exact ⟨bm, hb, h⟩
+
+/-- `configureWith` is `wire` unless the per-task check is on and some task is rejected by it. -/
+theorem configureWith_cases (cfg : Cfg) (tasks : List Task) :
+    (cfg.aliasPerTask = true ∧ tasks.any redefines = true ∧ configureWith cfg tasks = .error .aliasConflict) ∨
+    ((cfg.aliasPerTask = false ∨ tasks.any redefines = false) ∧ configureWith cfg tasks = wire tasks) := by
+  unfold configureWith
+  cases h1 : cfg.aliasPerTask <;> cases h2 : tasks.any redefines <;> simp
+
+theorem configureWith_ok_wire {cfg : Cfg} {tasks : List Task} {res : List Props}
+    (h : configureWith cfg tasks = .ok res) : wire tasks = .ok res := by
+  rcases configureWith_cases cfg tasks with ⟨_, _, he⟩ | ⟨_, he⟩
+  · rw [he] at h; cases h
+  · rw [← he]; exact h
+
+theorem configureWith_ok {cfg : Cfg} {tasks : List Task} {res : List Props} (h : configureWith cfg tasks = .ok res) :
+    ∃ bm, build [] (claims tasks) = .ok bm ∧ mapE (taskProps bm) tasks = .ok res :=
+  wire_ok (configureWith_ok_wire h)
+
+theorem configure_ok {tasks : List Task} {res : List Props} (h : configure tasks = .ok res) :
+    ∃ bm, build [] (claims tasks) = .ok bm ∧ mapE (taskProps bm) tasks = .ok res :=
+  configureWith_ok h
+
+theorem legacy_eq_wire (tasks : List Task) : configureWith legacyCfg tasks = wire tasks := by
+  simp [configureWith, legacyCfg]
+
+/-! ## the per-task scan of the declarations -/
+
+/-- The scan rejects only if some channel's alias is owned under another name — by the owners
+    it started with, or by a channel of the list. -/
+theorem aliasScan_true {owners : List (String × String)} {cs : List Inbound} (h : aliasScan owners cs = true) :
+    ∃ d ∈ cs, d.global.isEmpty = false ∧
+      ((∃ n, Assoc.get owners d.global = some n ∧ n ≠ d.name) ∨ ∃ c ∈ cs, c.global = d.global ∧ c.name ≠ d.name) := by
+  induction cs generalizing owners with
+  | nil => simp [aliasScan] at h
+  | cons c cs ih =>
+    unfold aliasScan at h
+    by_cases hg : c.global.isEmpty = true
+    · rw [if_pos hg] at h
+      obtain ⟨d, hd, hne, hor⟩ := ih h
+      refine ⟨d, List.mem_cons_of_mem _ hd, hne, ?_⟩
+      rcases hor with hl | ⟨c', hc', r⟩
+      · exact Or.inl hl
+      · exact Or.inr ⟨c', List.mem_cons_of_mem _ hc', r⟩
+    · rw [if_neg hg] at h
+      have hgf : c.global.isEmpty = false := by simpa using hg
+      -- what the recursive call yields, whatever the branch
+      have hrec0 : aliasScan (Assoc.set owners c.global c.name) cs = true →
+          ∃ d ∈ c :: cs, d.global.isEmpty = false ∧
+            ((∃ n, Assoc.get owners d.global = some n ∧ n ≠ d.name) ∨
+              ∃ c' ∈ c :: cs, c'.global = d.global ∧ c'.name ≠ d.name) := by
+        intro h'
+        obtain ⟨d, hd, hne, hor⟩ := ih h'
+        refine ⟨d, List.mem_cons_of_mem _ hd, hne, ?_⟩
+        rcases hor with ⟨n, hn, hnn⟩ | ⟨c', hc', r⟩
+        · by_cases hk : c.global = d.global
+          · rw [← hk, get_set_self] at hn
+            cases hn
+            exact Or.inr ⟨c, List.mem_cons_self, hk, hnn⟩
+          · rw [get_set_ne _ _ _ _ hk] at hn
+            exact Or.inl ⟨n, hn, hnn⟩
+        · exact Or.inr ⟨c', List.mem_cons_of_mem _ hc', r⟩
+      split at h
+      · rename_i o ho
+        by_cases hon : o = c.name
+        · simp only [hon, bne_self_eq_false, Bool.false_eq_true, if_false] at h
+          exact hrec0 h
+        · exact ⟨c, List.mem_cons_self, hgf, Or.inl ⟨o, ho, hon⟩⟩
+      · exact hrec0 h
+
+/-- The scan accepts only if every channel's alias is owned under the channel's own name —
+    by the owners it started with and by every other channel of the list. -/
+theorem aliasScan_false {owners : List (String × String)} {cs : List Inbound} (h : aliasScan owners cs = false) :
+    ∀ d ∈ cs, d.global.isEmpty = false →
+      (∀ n, Assoc.get owners d.global = some n → n = d.name) ∧ ∀ c ∈ cs, c.global = d.global → c.name = d.name := by
+  induction cs generalizing owners with
+  | nil => intro d hd; cases hd
+  | cons c cs ih =>
+    unfold aliasScan at h
+    by_cases hg : c.global.isEmpty = true
+    · rw [if_pos hg] at h
+      intro d hd hne
+      rcases List.mem_cons.mp hd with rfl | hd
+      · rw [hg] at hne; cases hne
+      · obtain ⟨h1, h2⟩ := ih h d hd hne
+        refine ⟨h1, ?_⟩
+        intro c' hc' hk
+        rcases List.mem_cons.mp hc' with rfl | hc'
+        · rw [hk, hne] at hg; cases hg
+        · exact h2 c' hc' hk
+    · rw [if_neg hg] at h
+      -- in both surviving branches: the owner found (if any) is c's own name, and the rest is scanned
+      -- with c as owner of its alias
+      have key : (∀ n, Assoc.get owners c.global = some n → n = c.name) ∧
+          aliasScan (Assoc.set owners c.global c.name) cs = false := by
+        split at h
+        · rename_i o ho
+          by_cases hon : o = c.name
+          · simp only [hon, bne_self_eq_false, Bool.false_eq_true, if_false] at h
+            refine ⟨?_, h⟩
+            intro n hn; rw [ho] at hn; cases hn; exact hon
+          · have : (o != c.name) = true := by simpa using hon
+            rw [this] at h; simp at h
+        · rename_i ho
+          refine ⟨?_, h⟩
+          intro n hn; rw [ho] at hn; cases hn
+      obtain ⟨hown, hrec⟩ := key
+      have ihr := ih hrec
+      -- every later channel with c's alias has c's name
+      have later : ∀ c' ∈ cs, c'.global = c.global → c'.name = c.name := by
+        intro c' hc' hk
+        have hne' : c'.global.isEmpty = false := by rw [hk]; simpa using hg
+        have := (ihr c' hc' hne').1 c.name (by rw [hk, get_set_self])
+        exact this.symm
+      intro d hd hne
+      rcases List.mem_cons.mp hd with rfl | hd
+      · refine ⟨hown, ?_⟩
+        intro c' hc' hk
+        rcases List.mem_cons.mp hc' with rfl | hc'
+        · rfl
+        · exact later c' hc' hk
+      · obtain ⟨h1, h2⟩ := ihr d hd hne
+        by_cases hk : c.global = d.global
+        · have hdn : d.name = c.name := later d hd hk.symm
+          refine ⟨?_, ?_⟩
+          · intro n hn
+            rw [← hk] at hn
+            rw [hown n hn, hdn]
+          · intro c' hc' hk'
+            rcases List.mem_cons.mp hc' with rfl | hc'
+            · exact hdn.symm
+            · exact h2 c' hc' hk'
+        · refine ⟨?_, ?_⟩
+          · intro n hn
+            exact h1 n (by rw [get_set_ne _ _ _ _ hk]; exact hn)
+          · intro c' hc' hk'
+            rcases List.mem_cons.mp hc' with rfl | hc'
+            · exact absurd hk' hk
+            · exact h2 c' hc' hk'
+
+/-- The scan of a task's declarations rejects exactly the tasks in which two channels of
+    different names share an alias. -/
+theorem redefines_iff (t : Task) : redefines t = true ↔ AliasTwice t := by
+  unfold redefines AliasTwice
+  constructor
+  · intro h
+    obtain ⟨d, hd, hne, hor⟩ := aliasScan_true h
+    rcases hor with ⟨n, hn, _⟩ | ⟨c, hc, hk, hn⟩
+    · simp [Assoc.get] at hn
+    · exact ⟨d, hd, c, hc, hne, hk.symm, fun e => hn e.symm⟩
+  · intro ⟨c, hc, d, hd, hne, hk, hn⟩
+    cases hs : aliasScan [] t.inbound with
+    | true => rfl
+    | false =>
+      exfalso
+      exact hn (((aliasScan_false hs) c hc hne).2 d hd hk.symm).symm
+
+theorem any_redefines_iff (tasks : List Task) : tasks.any redefines = true ↔ ∃ t ∈ tasks, AliasTwice t := by
+  simp only [List.any_eq_true, redefines_iff]
 
 theorem claims_sane {tasks : List Task} (hk : keysSane (claims tasks) = true) :
     ∀ c ∈ claims tasks, sane c = true := by
@@ -721,11 +919,39 @@ theorem explicit_empty {s : String} (h : s.isEmpty = true) : explicit s = false 
 theorem launch_entry {t : Task} (hl : launchOk t = true) {kv : String × Endpoint} (hkv : kv ∈ t.loc) :
     ∃ c ∈ t.inbound, entryOf kv c ∧ Assoc.get t.loc c.name = some kv.2 ∧ freshFor c kv.2 = true := by
   simp only [launchOk, Bool.and_eq_true, List.all_eq_true, List.any_eq_true, decide_eq_true_eq] at hl
-  obtain ⟨c, hc, he, hg⟩ := hl.2 kv hkv
+  obtain ⟨c, hc, he, hg⟩ := hl.1.1.2 kv hkv
   refine ⟨c, hc, he, hg, ?_⟩
-  have := hl.1 c hc
+  have := hl.1.1.1 c hc
   rw [hg] at this
   exact this
+
+/-- From `launchOk`: a task in which no alias is named by two channels advertises every declared
+    alias with the declaring channel's own endpoint. -/
+theorem advertised_of_not_twice {t : Task} (hl : launchOk t = true) (hn : ¬ AliasTwice t) : aliasesAdvertised t := by
+  intro c hc hg e he
+  have hl' := hl
+  simp only [launchOk, Bool.and_eq_true, List.all_eq_true, List.any_eq_true, decide_eq_true_eq,
+    Bool.or_eq_true, Bool.not_eq_true'] at hl'
+  have hpres := hl'.1.2 c hc
+  rw [hg] at hpres
+  simp only [Bool.false_eq_true, false_or] at hpres
+  obtain ⟨e', he'⟩ := Option.isSome_iff_exists.mp hpres
+  have hmem : (aliasKey c.global, e') ∈ t.loc := mem_of_get he'
+  obtain ⟨c', hc', hent, hloc, _⟩ := launch_entry hl hmem
+  have hsame : c'.name = c.name := by
+    rcases hent with hnm | ⟨hg', hk⟩
+    · have := hl'.2 c' hc'
+      rw [← show aliasKey c.global = c'.name from hnm, isAlias_aliasKey] at this
+      cases this
+    · have hgg : c.global = c'.global := (String.append_right_inj _).mp hk
+      apply Classical.byContradiction
+      intro hne
+      exact hn ⟨c, hc, c', hc', hg, hgg, fun e => hne e.symm⟩
+  refine ⟨(aliasKey c.global, e'), hmem, rfl, ?_⟩
+  show e' = e
+  have h1 : Assoc.get t.loc c.name = some e' := by rw [← hsame]; exact hloc
+  rw [he] at h1
+  exact (Option.some.inj h1).symm
 
 theorem wf_claims {tasks : List Task} (hwf : WF tasks) :
     (∀ c ∈ claims tasks, sane c = true) ∧ (∀ c ∈ claims tasks, validHost c.host = true) ∧
